@@ -10,6 +10,7 @@ import (
 	"context"
 	"fmt"
 	"strings"
+	"sync"
 	"time"
 
 	"github.com/smarthome-go/homescript/v3/homescript/analyzer"
@@ -27,6 +28,7 @@ import (
 // ---- context under harness control ----
 
 type verifCtx struct {
+	mu        sync.Mutex
 	done      chan struct{}
 	cancelled bool
 	polls     int
@@ -37,13 +39,18 @@ func newVerifCtx() *verifCtx { return &verifCtx{done: make(chan struct{}), cance
 
 func (c *verifCtx) Deadline() (time.Time, bool) { return time.Time{}, false }
 func (c *verifCtx) Done() <-chan struct{} {
+	c.mu.Lock()
 	c.polls++
-	if c.cancelAt >= 0 && c.polls > c.cancelAt {
+	flip := c.cancelAt >= 0 && c.polls > c.cancelAt
+	c.mu.Unlock()
+	if flip {
 		c.cancel()
 	}
 	return c.done
 }
 func (c *verifCtx) Err() error {
+	c.mu.Lock()
+	defer c.mu.Unlock()
 	if c.cancelled {
 		return context.Canceled
 	}
@@ -51,6 +58,8 @@ func (c *verifCtx) Err() error {
 }
 func (c *verifCtx) Value(key any) any { return nil }
 func (c *verifCtx) cancel() {
+	c.mu.Lock()
+	defer c.mu.Unlock()
 	if !c.cancelled {
 		c.cancelled = true
 		close(c.done)
@@ -302,7 +311,7 @@ var verifLimits = runtime.CoreLimits{CallStackMaxSize: 100, StackMaxSize: 500, M
 func verifRunVM(a verifAnalysis, modules map[string]string, inputs []verifInput, limits runtime.CoreLimits, ctx *verifCtx) verifOutcome {
 	out := ""
 	var triggers []string
-	exec := verifVmExec{out: &out, triggers: &triggers, modules: modules}
+	exec := verifSyncExec{verifVmExec: verifVmExec{out: &out, triggers: &triggers, modules: modules}, mu: &sync.Mutex{}}
 	comp := compiler.NewCompiler(a.modules, verifFile)
 	compiled, err := comp.Compile()
 	if err != nil {
